@@ -45,6 +45,10 @@ CHECKS = {
    technique="complete enumeration of driver x transport x projected offered-feature sets on the real constructors, with an ordered device-side log (model transport calls, or register traces decoded by the register-level devices) and a co-simulated reference device observing the chains of a post-initialisation script",
    text="All 11 drivers on the model transport and the real MMIO legacy/modern and PCI transports (also through SomeTransport), for every subset of the driver's supported feature bits plus three unsupported representatives, every single bit and all ones: the ordered log must show reset, ACKNOWLEDGE|DRIVER, feature read, accepted subset of offered & supported including VERSION_1 when offered, FEATURES_OK, every queue_set before DRIVER_OK, no notification before DRIVER_OK; afterwards indirect descriptors, used_event writes, block flush, console size/emergency write, GPU EDID and the 10/12-byte network header appear exactly when negotiated.",
    note="2^64 offered sets are projected onto the <= 9 bits that can influence each driver (bitwise AND with a constant); the premise is checked on every case."),
+ "C09": dict(level="fault_enumeration", design="DESIGN.md §4 C09",
+   technique="exhaustive fault enumeration on the real constructors and Drop impls over the real transports: every k-th DMA allocation failing, every truncated configuration space, usage histories followed by drop; oracles = platform ledger, device liveness at each dma_dealloc (hook) and at each heap free of a still-posted buffer (global allocator interposer)",
+   text="For all 11 drivers on the model, MMIO legacy/modern and PCI transports and several feature variants: each of the K DMA allocations of a fault-free construction is made to fail in turn, the configuration space is truncated to every shorter length (9P: also empty, non-UTF-8 and over-long tags), and fault-free usage histories of 0-3 steps (non-blocking requests left outstanding, stocked receive queues, held receive buffers) are followed by drop. Failure must be an error not a panic; every DMA region is returned exactly once with its original address, pointer, page count and flag; no queue region and no posted driver-owned heap buffer is released while the device is live on that queue.",
+   note="Liveness is judged by the register-level device models (DRIVER_OK set, no reset since, queue enabled). Buffers of requests outstanding at drop stay shared: outside this property."),
 }
 
 NOT_YET = "check not built yet in this round (machinery under construction; see DESIGN.md)"
